@@ -225,6 +225,8 @@ class Tree:
                 parsed.append((name, path, rel, src, tree, raw))
         if self.canonical:
             from . import canon
+            canon.align_names({rel: tree for _, _, rel, _, tree, _ in parsed})
+            canon.align_params({rel: tree for _, _, rel, _, tree, _ in parsed})
             canon.SIGNATURES.clear()
             canon.SIGNATURES.update(canon.signature_table({rel: tree for _, _, rel, _, tree, _ in parsed}))
         for name, path, rel, src, tree, raw in parsed:
